@@ -117,6 +117,7 @@ func (l *Lexer) Next() (token.Token, error) {
 	// multi-line comments
 	if l.ch == rune('/') && l.peekChar() == rune('*') {
 		l.skipMultiLineComment()
+		return l.Next()
 	}
 
 	if l.prevToken.Type == token.EOF {
